@@ -431,6 +431,103 @@ var gobNestEntries = func() []decodeEntry {
 	return out
 }()
 
+type lengthCase struct {
+	Name  string
+	Doc   func(n int) string
+	Class string // what the signature names: for lists the kind of member, whatever property holds the list
+}
+
+func repJoin(n int, f func(i int) string) string {
+	sb := strings.Builder{}
+	for i := 0; i < n; i++ {
+		if i > 0 {
+			sb.WriteByte(',')
+		}
+		sb.WriteString(f(i))
+	}
+	return sb.String()
+}
+
+// lengthCases: every way a document can be long without being deep
+var lengthCases = func() []lengthCase {
+	member := map[string]func(i int) string{
+		"iris":         func(i int) string { return fmt.Sprintf(`"https://a.example/u/%d"`, i) },
+		"the-same-iri": func(i int) string { return `"https://a.example/u/1"` },
+		"objects": func(i int) string {
+			return fmt.Sprintf(`{"id":"https://a.example/n/%d","type":"Note","name":"n%d"}`, i, i)
+		},
+		"idless-objects": func(i int) string { return fmt.Sprintf(`{"type":"Note","name":"n%d"}`, i) },
+		"mentions": func(i int) string {
+			return fmt.Sprintf(`{"type":"Mention","href":"https://a.example/u/%d","name":"@u%d"}`, i, i)
+		},
+		"unknown-typed": func(i int) string { return fmt.Sprintf(`{"type":"Hashtag","name":"#t%d"}`, i) },
+		"activities": func(i int) string {
+			return fmt.Sprintf(`{"id":"https://a.example/a/%d","type":"Create","actor":"https://a.example/u/1","object":{"id":"https://a.example/o/%d","type":"Note","content":"hello"}}`, i, i)
+		},
+		"one-element-lists": func(i int) string { return fmt.Sprintf(`["https://a.example/u/%d"]`, i) },
+	}
+	var out []lengthCase
+	names := make([]string, 0, len(member))
+	for k := range member {
+		names = append(names, k)
+	}
+	sort.Strings(names)
+	for _, mk := range names {
+		f := member[mk]
+		for _, host := range []string{"tag", "to", "orderedItems", "items", "url", "oneOf"} {
+			if (host == "url") != (mk == "mentions" || mk == "iris") && host == "url" {
+				continue
+			}
+			host, mk := host, mk
+			out = append(out, lengthCase{Class: "list of distinct " + mk, Name: "list " + host + " of " + mk, Doc: func(n int) string {
+				typ := map[string]string{"orderedItems": "OrderedCollection", "items": "Collection", "oneOf": "Question"}[host]
+				if typ == "" {
+					typ = "Note"
+				}
+				return `{"id":"https://a.example/host","type":"` + typ + `","` + host + `":[` + repJoin(n, f) + `]}`
+			}})
+		}
+	}
+	out = append(out,
+		lengthCase{Name: "language map entries", Doc: func(n int) string {
+			return `{"type":"Note","nameMap":{` + repJoin(n, func(i int) string { return fmt.Sprintf(`"l%d":"text %d"`, i, i) }) + `}}`
+		}},
+		lengthCase{Name: "one language repeated", Doc: func(n int) string {
+			return `{"type":"Note","contentMap":{` + repJoin(n, func(i int) string { return fmt.Sprintf(`"en":"text %d"`, i) }) + `}}`
+		}},
+		lengthCase{Name: "unknown properties", Doc: func(n int) string {
+			return `{"type":"Note",` + repJoin(n, func(i int) string { return fmt.Sprintf(`"x%d":"text %d"`, i, i) }) + `}`
+		}},
+		lengthCase{Name: "known property repeated", Doc: func(n int) string {
+			return `{"type":"Note",` + repJoin(n, func(i int) string { return fmt.Sprintf(`"summary":"text %d"`, i) }) + `}`
+		}},
+		lengthCase{Name: "text with escapes", Doc: func(n int) string {
+			return `{"type":"Note","content":"` + strings.Repeat(`a\"b\\n<p>\u00e9`, n*4) + `"}`
+		}},
+		lengthCase{Name: "context list", Doc: func(n int) string {
+			return `{"@context":[` + repJoin(n, func(i int) string { return fmt.Sprintf(`"https://a.example/ns/%d"`, i) }) + `],"type":"Note"}`
+		}},
+		lengthCase{Name: "long id", Doc: func(n int) string {
+			return `{"type":"Note","id":"https://a.example/` + strings.Repeat("seg/", n*4) + `"}`
+		}},
+		lengthCase{Name: "long query", Doc: func(n int) string {
+			return `{"type":"Note","tag":["https://a.example/?` + strings.Repeat("k=v&", n*2) + `z=1","https://a.example/?` + strings.Repeat("k=v&", n*2) + `z=2"]}`
+		}},
+		lengthCase{Name: "big number", Doc: func(n int) string {
+			return `{"type":"Place","latitude":1` + strings.Repeat("0", n) + `.5,"totalItems":` + strings.Repeat("9", n) + `}`
+		}},
+		lengthCase{Name: "public key pem", Doc: func(n int) string {
+			return `{"type":"Person","publicKey":{"id":"https://a.example/k","owner":"https://a.example/u","publicKeyPem":"` + strings.Repeat(`MIIBIjANBgkq\n`, n*2) + `"}}`
+		}},
+	)
+	for i := range out {
+		if out[i].Class == "" {
+			out[i].Class = out[i].Name
+		}
+	}
+	return out
+}()
+
 type twinChainCase struct{ Type, Term, Host string }
 
 // twinChainCases: one vocabulary name per struct kind (two for the large families), nested through every item-valued or
@@ -628,6 +725,76 @@ func init() {
 							return
 						}
 					}
+				}},
+				{Name: "length-growth", N: len(lengthCases), Exhaustive: true, Run: func(c *Ctx, idx int) {
+					// the same document shape at 100 and at 800 repetitions of its repeated part (members of a list, entries of a language
+					// map, unknown properties, bytes of a text...): eight times the input may cost about eight times the processor time
+					// (thread CPU clock). More than 24 times is out of proportion; the signature says whether it looks quadratic (up to 192
+					// times) or worse, so that a listed quadratic case that becomes cubic is a new finding.
+					lc := lengthCases[idx]
+					c.Distinct("length|"+lc.Name, true)
+					var tj, tg [2]time.Duration
+					var lens [2]int
+					for k, n := range []int{100, 800} {
+						in := []byte(lc.Doc(n))
+						lens[k] = len(in)
+						c.Pending(fmt.Sprintf("UnmarshalJSON(pkg) :: %s x %d (%d bytes)", lc.Name, n, len(in)))
+						var v vocab.Item
+						var err error
+						tj[k] = -1
+						for rep := 0; rep < 2; rep++ {
+							var d time.Duration
+							if c.Guard("UnmarshalJSON(pkg)", func() { d = threadCPU(func() { v, err = vocab.UnmarshalJSON(in) }) }) {
+								return
+							}
+							if tj[k] < 0 || d < tj[k] {
+								tj[k] = d
+							}
+							c.Eval(1)
+							c.Count("length-growth-decodes", 1)
+						}
+						if err != nil || v == nil {
+							c.Fail("work|json|length-refused|"+lc.Name, fmt.Sprintf("UnmarshalJSON refused %s x %d: %v", lc.Name, n, err), map[string]any{"input": clipB(in[:minInt(len(in), 300)])})
+							return
+						}
+						var gb []byte
+						if c.Guard("GobEncode(pkg)", func() { gb, err = vocab.GobEncode(v) }) {
+							return
+						}
+						if err != nil || len(gb) == 0 {
+							continue
+						}
+						c.Pending(fmt.Sprintf("GobDecode(pkg) :: gob form of %s x %d (%d bytes)", lc.Name, n, len(gb)))
+						tg[k] = -1
+						for rep := 0; rep < 2; rep++ {
+							var d time.Duration
+							if c.Guard("GobDecode(pkg)", func() { d = threadCPU(func() { _, _ = vocab.GobDecode(gb) }) }) {
+								return
+							}
+							if tg[k] < 0 || d < tg[k] {
+								tg[k] = d
+							}
+							c.Eval(1)
+							c.Count("length-growth-decodes", 1)
+						}
+					}
+					judge := func(codec, entry string, t [2]time.Duration) {
+						if t[0] <= 0 || t[1] <= 0 {
+							return
+						}
+						base := maxDur(t[0], 100*time.Microsecond)
+						if t[1] <= 24*base {
+							return
+						}
+						cls := "quadratic"
+						if t[1] > 192*base {
+							cls = "worse-than-quadratic"
+						}
+						c.Fail("work|"+codec+"|length-super-linear|"+lc.Class+"|"+cls, fmt.Sprintf("%s of %s: %v at 100 repetitions, %v at 800 (%d and %d bytes of JSON): the time is out of proportion to the input (%s)", entry, lc.Name, t[0], t[1], lens[0], lens[1], cls),
+							map[string]any{"shape": lc.Name, "cpu_ns": t, "json_bytes": lens})
+					}
+					judge("json", "UnmarshalJSON", tj)
+					judge("gob", "GobDecode of the gob form", tg)
 				}},
 				{Name: "mutations", N: tierN(tier, 100000, 5000000), Run: func(c *Ctx, idx int) {
 					if c.Build != "plain" && idx%10 != 0 {
